@@ -21,7 +21,7 @@ LEVEL = "exploration"
 RULE = ("annotations from grammar U (every sub-annotation of every generated program used as a root) plus class-graph "
         "topologies: all digraphs over <=3 synthesised classes (edge kinds direct/Optional/list/dict/tuple[...]/X|None sampled), "
         "sampled digraphs over 4, nested classes (Outer.Ci), each class and each container of a class as root; one "
-        "evaluation = one static_order/itertypes result checked against all clauses; distinct = distinct (module-independent) "
+        "evaluation = one static_order/itertypes result checked against all clauses; plus the clause checker applied to every graph the repository's own test-suite builds; distinct = distinct (module-independent) "
         "node-sequence shape; non-trivial = more than one node")
 ASSUMPTIONS = [
     "member lists are computed by the harness from typing.get_args / typing.get_type_hints; Any, TypeVars, Ellipsis and empty are exempt; Literal arguments are values",
@@ -29,8 +29,8 @@ ASSUMPTIONS = [
     "a step budget (sys.monitoring PY_START events) decides termination; wall-clock is only a watchdog",
 ]
 PLAN = {"quick": dict(programs=500, topologies=1400, depth=3), "thorough": dict(programs=12000, topologies=40000, depth=5)}
-FLOORS = {"quick": {"sequences_checked": 15000, "deferred_nodes_seen": 3000, "equivalences_checked": 3000, "topology_roots": 8000, "same_name_two_module_topologies": 200, "bare_and_parameterised_roots": 2000, "two_labels_one_type_roots": 1500},
-          "thorough": {"sequences_checked": 400000, "deferred_nodes_seen": 80000, "equivalences_checked": 80000, "topology_roots": 200000, "bare_and_parameterised_roots": 40000, "two_labels_one_type_roots": 25000}}
+FLOORS = {"quick": {"suite_graphs_judged": 80, "suite_tests_passed": 1400, "sequences_checked": 15000, "deferred_nodes_seen": 3000, "equivalences_checked": 3000, "topology_roots": 8000, "same_name_two_module_topologies": 200, "bare_and_parameterised_roots": 2000, "two_labels_one_type_roots": 1500},
+          "thorough": {"suite_graphs_judged": 80, "suite_tests_passed": 1400, "sequences_checked": 400000, "deferred_nodes_seen": 80000, "equivalences_checked": 80000, "topology_roots": 200000, "bare_and_parameterised_roots": 40000, "two_labels_one_type_roots": 25000}}
 STEP_BUDGET = 2_000_000
 
 
@@ -279,3 +279,13 @@ def run_shard(sh):
 
     sh.run_cases(nprog + ntopo, case)
     steps.stop()
+
+    # second workload: the repository's own test-suite, watched by the spec-free monitors of vlib/suitemon.py (last, so that its
+    # cache state cannot shape the cases above); one shard runs it
+    if sh.shard == sh.nshards - 1:
+        from vlib import suitemon
+
+        suitemon.run_repo_suite(sh, ['graph'])
+    else:
+        for k in ['suite_graphs_judged', 'suite_tests_passed']:
+            sh.count(k, 0)
